@@ -443,6 +443,10 @@ func (v Value) assign(t Type) Value {
 		default:
 			return Value{t: TypeInt32, num: float64(int32(int64(v.num)))}
 		}
+	case v.t == TypeFloat64 && t&typedNumberMask != 0 && t != TypeFloat64:
+		// a float64 reaches an integer slot only as a constant such as 1e6 or 2.0 (Go rejects every other float
+		// there): it takes the slot's type
+		return Value{t: untypedInt, num: v.num}.assign(t)
 	case v.t != TypeNil:
 		return v
 	case t >= nillableMin:
